@@ -527,6 +527,8 @@ type ccSweepReq struct {
 	// reqOut is the output the input commits to (second-level HTLC
 	// transactions signed SINGLE|ANYONECANPAY).
 	reqOut *wire.TxOut
+	// inp is the input exactly as the resolver handed it over.
+	inp input.Input
 }
 
 type ccBreachSub struct {
@@ -541,6 +543,14 @@ type ccWorld struct {
 	mu sync.Mutex
 
 	height int32
+
+	// sweepHook, if set, builds (and validates) the real sweep
+	// transaction for a request instead of the canned one. spent tells
+	// it that the outpoint is already spent (validate only). It is called
+	// with w.mu held by the pumping goroutine and must not touch the
+	// world.
+	sweepHook func(r *ccSweepReq, spent bool) (*wire.MsgTx, error)
+	hookErrs  []error
 
 	// eager: dispatch historical spends at registration (single-resolver
 	// reproductions only; the generated runs are lazy).
@@ -833,7 +843,7 @@ func (s *ccSweeper) SweepInput(inp input.Input, _ sweep.Params) (
 	ch := make(chan sweep.Result, 1)
 	req := &ccSweepReq{
 		op: inp.OutPoint(), ch: ch, inc: s.inc, wt: inp.WitnessType(),
-		reqOut: inp.RequiredTxOut(),
+		reqOut: inp.RequiredTxOut(), inp: inp,
 	}
 	if p := inp.Preimage(); p.IsSome() {
 		pre := p.UnwrapOr(lntypes.Preimage{})
@@ -1085,6 +1095,46 @@ func (w *ccWorld) mine() int32 {
 	return w.height
 }
 
+// jumpTo advances the chain to height h at once; subscribers only see the
+// new tip.
+func (w *ccWorld) jumpTo(h int32) {
+	w.mu.Lock()
+	defer w.mu.Unlock()
+	if h <= w.height {
+		return
+	}
+	w.height = h
+	for _, e := range w.epochSubs {
+		if e.next < h {
+			e.next = h
+		}
+	}
+	w.applyClaimsLocked()
+}
+
+// confirm records that tx (published by the node or one of its subsystems)
+// confirmed, spending its first input.
+func (w *ccWorld) confirm(tx *wire.MsgTx) {
+	w.mu.Lock()
+	defer w.mu.Unlock()
+	w.spendLocked(tx.TxIn[0].PreviousOutPoint, tx)
+}
+
+// pendingSweeps returns the sweep requests of inc that were never pumped.
+func (w *ccWorld) pendingSweeps(inc *ccInc) []*ccSweepReq {
+	w.mu.Lock()
+	defer w.mu.Unlock()
+	var out []*ccSweepReq
+	for _, r := range w.sweeps {
+		if r.inc == inc && !r.done {
+			out = append(out, r)
+		}
+	}
+	sort.Slice(out, func(i, j int) bool { return out[i].seq < out[j].seq })
+
+	return out
+}
+
 // pumpOne delivers exactly one pending notification of the live incarnation
 // in an order that does not depend on goroutine scheduling. It returns a
 // description of what was delivered, or "" if nothing is pending.
@@ -1133,6 +1183,12 @@ func (w *ccWorld) pumpOne(inc *ccInc) string {
 			do: func() {
 				r.done = true
 				if d, ok := w.spent[r.op]; ok {
+					if w.sweepHook != nil {
+						_, err := w.sweepHook(r, true)
+						if err != nil {
+							w.hookErrs = append(w.hookErrs, err)
+						}
+					}
 					ours := d.SpendingTx.LockTime != 0x7e
 					res := sweep.Result{Tx: d.SpendingTx}
 					if !ours {
@@ -1156,6 +1212,15 @@ func (w *ccWorld) pumpOne(inc *ccInc) string {
 				tx := ccSweepTx(r.op, wit)
 				if r.reqOut != nil {
 					tx.TxOut[0] = r.reqOut
+				}
+				if w.sweepHook != nil {
+					real, err := w.sweepHook(r, false)
+					if err != nil {
+						w.hookErrs = append(w.hookErrs, err)
+					}
+					if real != nil {
+						tx = real
+					}
 				}
 				w.spendLocked(r.op, tx)
 				w.published = append(w.published,
@@ -1414,6 +1479,22 @@ func ccCheckpointName(r ContractResolver) string {
 	}
 
 	return fmt.Sprintf("Checkpoint(%T)", r)
+}
+
+// ccNoBatchDB hides the bolt backend's Batch method so that kvdb.Batch falls
+// back to a plain Update: same atomicity, without bbolt's 10ms batch timer.
+type ccNoBatchDB struct{ kvdb.Backend }
+
+// ccOpenDB creates / opens a bolt file for an arbitrator log.
+func ccOpenDB(path string) (kvdb.Backend, error) {
+	db, err := kvdb.Create(
+		kvdb.BoltBackendName, path, true, kvdb.DefaultDBTimeout, false,
+	)
+	if err != nil {
+		return nil, err
+	}
+
+	return ccNoBatchDB{db}, nil
 }
 
 // ccMemLog is a straightforward in-memory ArbitratorLog.
